@@ -35,6 +35,18 @@ def gen_cases(ctx):
                     hists.append([("r", 0) if a == len(alpha_s) else ("n", 0, alpha_s[a]) for a in w])
             for hi, h in enumerate(hists):
                 cont = feed(r, ind, p + 2 + r.randint(0, 4), bars=None)
+                if hi % 2 == 1:
+                    # infinities and extreme (non-NaN) values are legitimate continuation inputs as well
+                    ext = [float("inf"), float("-inf"), 1.7976931348623157e308, -1.7976931348623157e308, 5e-324, 0.0, -0.0]
+                    for ci_ in range(len(cont)):
+                        if r.random() < (0.5 if ci_ == 0 else 0.25):
+                            o_ = list(cont[ci_])
+                            if o_[0] == "n":
+                                o_[2] = r.choice(ext)
+                                cont[ci_] = tuple(o_)
+                            elif o_[0] == "b":
+                                o_[2 + r.randrange(5)] = r.choice(ext)
+                                cont[ci_] = tuple(o_)
                 ops = [new_op(0, ind, pr)] + h + [("d", 0), ("r", 0)]
                 if hi % 3 == 0:
                     ops.append(("r", 0))
@@ -51,6 +63,31 @@ def gen_cases(ctx):
 
 def nontrivial(c):
     return c.meta["hist_feeds"] >= 1
+
+
+def search(ctx, t1_bad):
+    """The correspondence broke on some cases: turn each into a direct test of the property — everything up to the last
+    reset before the first differing op is the history, what follows is the continuation, fed in lock-step to a fresh instance."""
+    from common import run_harness
+    derived = []
+    for c in t1_bad[:40]:
+        k = c.t1 if 0 < c.t1 < 1000000 else len(c.ops)
+        ops = [o for o in c.ops[:k] if o[0] != "new" or o[1] == 0]
+        ops = [o for o in ops if len(o) < 2 or o[1] == 0 or o[0] == "new"]
+        rpos = [i for i, o in enumerate(ops) if o[0] == "r"]
+        if not rpos:
+            continue
+        cut = rpos[-1] + 1
+        cont = [o for o in ops[cut:] if o[0] in "nbi"]
+        newop = c.ops[0]
+        d = list(ops[:cut]) + [("new", 1) + tuple(newop[2:])]
+        for o in cont:
+            d += [o, (o[0], 1) + tuple(o[2:])]
+        derived.append(Case(c.cid + "_derived", d, dump=(), meta=dict(c.meta, hist_feeds=1)))
+    if not derived:
+        return []
+    run_harness(ctx.binary, derived, "C04search")
+    return check_impl(ctx, derived)
 
 
 def check_impl(ctx, cases):
